@@ -35,9 +35,11 @@ type excC struct {
 }
 
 type caseC struct {
-	Part string `json:"part"`
-	Exc  []excC `json:"exceptions"`
-	Data string `json:"data"`
+	Part  string `json:"part"`
+	Exc   []excC `json:"exceptions"`
+	Data  string `json:"data"`
+	Name  string `json:"source_name,omitempty"` // mixed lists: the source name (exceptions with check_source_name look at it)
+	Mixed bool   `json:"mixed,omitempty"`
 }
 
 func refRuleC(r ruleC, data string) bool {
@@ -100,18 +102,34 @@ func newAntispammerC(exc []excC) *antispam.Antispammer {
 var timeC = time.Unix(1_700_000_000, 0)
 
 func checkC(r *vreport.Run, a *antispam.Antispammer, exc []excC, data string) {
-	r.Case()
-	r.Steps(1)
-	want := false
-	for _, e := range exc {
-		want = want || refExcC(e, data)
-	}
 	name, event := "src", data
 	if exc[0].ByName {
 		name, event = data, "zzz"
 	}
+	checkCx(r, a, exc, name, event, false)
+}
+
+// checkCx: every exception looks at its own subject - the source name when check_source_name is set, the event otherwise.
+func checkCx(r *vreport.Run, a *antispam.Antispammer, exc []excC, name, event string, mixed bool) {
+	r.Case()
+	r.Steps(1)
+	data := event
+	if !mixed && exc[0].ByName {
+		data = name
+	}
+	want := false
+	for _, e := range exc {
+		subject := event
+		if e.ByName {
+			subject = name
+		}
+		want = want || refExcC(e, subject)
+	}
 	var spam bool
 	tc := caseC{Part: "C", Exc: exc, Data: data}
+	if mixed {
+		tc = caseC{Part: "C", Exc: exc, Data: event, Name: name, Mixed: true}
+	}
 	panicked, val, stack := vplug.Try(func() { spam = a.IsSpam("1", name, false, []byte(event), timeC, nil) })
 	if panicked {
 		r.Violation("panic", map[string]string{"part": "C", "site": vreport.PanicSite(stack)}, val+"\n"+stack, tc)
@@ -207,6 +225,20 @@ func runC(r *vreport.Run) {
 				checkC(r, a, exc, d)
 			}
 		}
+		// mixed lists: one exception looks at the source name, the other at the event content, in both orders
+		for j := (i % second); j < len(rules); j += 5 * second {
+			for _, order := range [][]excC{
+				{{Name: "n", Cond: "and", Rules: []ruleC{r1}, ByName: true}, {Name: "c", Cond: "and", Rules: []ruleC{rules[j]}}},
+				{{Name: "c", Cond: "and", Rules: []ruleC{rules[j]}}, {Name: "n", Cond: "and", Rules: []ruleC{r1}, ByName: true}},
+			} {
+				a := newAntispammerC(order)
+				for _, name := range []string{"", "a", "ab", "B", "ba", "abb"} {
+					for _, ev := range data[:13] {
+						checkCx(r, a, order, name, ev, true)
+					}
+				}
+			}
+		}
 	}
 }
 
@@ -214,6 +246,10 @@ func replayC(t *testing.T, r *vreport.Run, raw []byte) {
 	var tc caseC
 	if err := json.Unmarshal(raw, &tc); err != nil {
 		t.Fatal(err)
+	}
+	if tc.Mixed {
+		checkCx(r, newAntispammerC(tc.Exc), tc.Exc, tc.Name, tc.Data, true)
+		return
 	}
 	checkC(r, newAntispammerC(tc.Exc), tc.Exc, tc.Data)
 }
